@@ -158,3 +158,25 @@ def _sum_arg(t: T) -> Optional[T]:
     if mm is not None and not mm[1]:
         return mm[0]
     return None
+
+
+def sampler_keys(ctx, fi: FuncInfo, rule: str = "PRNG-1") -> int:
+    """Every jax.random sampler call in fi draws from a subkey produced by random.split
+    (never from a stored key directly)."""
+    ev, fr = eval_with_terms(ctx.p, fi)
+    n = 0
+    seen = set()
+    for t in all_terms(ev):
+        if t.op == "call" and func_name(t) in SAMPLERS and t.uid not in seen:
+            seen.add(t.uid)
+            _, pos, kws = call_parts(t)
+            key = pos[0] if pos else kws.get("key")
+            ok = key is not None and key.op == "getitem" and key.args[0].op == "call" and \
+                func_name(key.args[0]) == "jax.random.split" and is_const(key.args[1], 1)
+            ctx.ob(rule, f"{fi.qualname}: sampler #{n} draws from a fresh subkey", ok,
+                   "key = random.split(...)[1]" if ok else
+                   f"{func_name(t)} is keyed by {show(key, maxdepth=2)[:80] if key is not None else '?'}, "
+                   f"not by a split subkey (the same numbers are drawn again)", fi,
+                   ev.line_of.get(t.uid, fi.lineno))
+            n += 1
+    return n
